@@ -31,8 +31,13 @@ var swaps = map[token.Token][]token.Token{
 	token.ADD: {token.SUB}, token.SUB: {token.ADD},
 }
 
+var gen2 = false
+
 func main() {
 	root := os.Args[1]
+	if len(os.Args) > 2 && os.Args[2] == "-gen2" {
+		gen2 = true
+	}
 	enc := json.NewEncoder(os.Stdout)
 	for _, dir := range []string{".", "internal/parser"} {
 		files, _ := filepath.Glob(filepath.Join(root, dir, "*.go"))
@@ -53,6 +58,24 @@ func main() {
 			}
 			rel, _ := filepath.Rel(root, f)
 			for _, d := range af.Decls {
+				if gd, ok := d.(*ast.GenDecl); ok && gen2 && (gd.Tok == token.VAR || gd.Tok == token.CONST) {
+					// package-level initialisers: string and integer literals
+					ast.Inspect(gd, func(n ast.Node) bool {
+						if bl, ok := n.(*ast.BasicLit); ok {
+							o := fset.Position(bl.Pos()).Offset
+							e := fset.Position(bl.End()).Offset
+							old := string(src[o:e])
+							if bl.Kind == token.STRING && len(old) > 3 && old[0] == '"' {
+								enc.Encode(Mut{File: rel, Func: "(package level)", Line: fset.Position(bl.Pos()).Line, Pos: o, End: e, Old: old, New: old[:len(old)-2] + "\"", Op: "pkg-string-drop-last"})
+							}
+							if bl.Kind == token.INT && len(old) < 6 {
+								enc.Encode(Mut{File: rel, Func: "(package level)", Line: fset.Position(bl.Pos()).Line, Pos: o, End: e, Old: old, New: old + "+1", Op: "pkg-const +1"})
+							}
+						}
+						return true
+					})
+					continue
+				}
 				fd, ok := d.(*ast.FuncDecl)
 				if !ok || fd.Body == nil {
 					continue
@@ -73,6 +96,76 @@ func main() {
 				off := func(p token.Pos) int { return fset.Position(p).Offset }
 				emit := func(p, e token.Pos, nw, op string) {
 					enc.Encode(Mut{File: rel, Func: name, Line: fset.Position(p).Line, Pos: off(p), End: off(e), Old: string(src[off(p):off(e)]), New: nw, Op: op})
+				}
+				if gen2 {
+					ast.Inspect(fd.Body, func(n ast.Node) bool {
+						switch x := n.(type) {
+						case *ast.BinaryExpr:
+							l := string(src[off(x.X.Pos()):off(x.X.End())])
+							r := string(src[off(x.Y.Pos()):off(x.Y.End())])
+							switch x.Op {
+							case token.LAND, token.LOR:
+								emit(x.Pos(), x.End(), l, "drop-right-operand")
+								emit(x.Pos(), x.End(), r, "drop-left-operand")
+							case token.LSS, token.LEQ:
+								emit(x.OpPos, x.OpPos+token.Pos(len(x.Op.String())), ">", "op "+x.Op.String()+"->>")
+							case token.GTR, token.GEQ:
+								emit(x.OpPos, x.OpPos+token.Pos(len(x.Op.String())), "<", "op "+x.Op.String()+"-><")
+							case token.EQL:
+								emit(x.OpPos, x.OpPos+2, "<=", "op ==-><=")
+							case token.MUL:
+								emit(x.OpPos, x.OpPos+1, "/", "op *->/")
+							case token.QUO:
+								emit(x.OpPos, x.OpPos+1, "*", "op /->*")
+							}
+						case *ast.Ident:
+							if x.Name == "true" {
+								emit(x.Pos(), x.End(), "false", "true->false")
+							} else if x.Name == "false" {
+								emit(x.Pos(), x.End(), "true", "false->true")
+							}
+						case *ast.IfStmt:
+							if x.Else == nil && x.Init == nil {
+								emit(x.Pos(), x.End(), "", "delete-if")
+							}
+							if x.Else != nil {
+								emit(x.Body.End(), x.Else.End(), "", "delete-else")
+							}
+						case *ast.BasicLit:
+							if x.Kind == token.STRING {
+								old := string(src[off(x.Pos()):off(x.End())])
+								if len(old) > 3 && old[0] == '"' {
+									emit(x.Pos(), x.End(), old[:len(old)-2]+"\"", "string-drop-last")
+								}
+							}
+						case *ast.IndexExpr:
+							ix := string(src[off(x.Index.Pos()):off(x.Index.End())])
+							if _, isLit := x.Index.(*ast.BasicLit); !isLit && len(ix) < 30 {
+								emit(x.Index.Pos(), x.Index.End(), "("+ix+")+1", "index+1")
+							}
+						case *ast.SliceExpr:
+							if x.High != nil {
+								h := string(src[off(x.High.Pos()):off(x.High.End())])
+								emit(x.High.Pos(), x.High.End(), "("+h+")-1", "slice-high-1")
+							}
+							if x.Low != nil {
+								l := string(src[off(x.Low.Pos()):off(x.Low.End())])
+								emit(x.Low.Pos(), x.Low.End(), "("+l+")+1", "slice-low+1")
+							}
+						case *ast.UnaryExpr:
+							if x.Op == token.NOT {
+								emit(x.Pos(), x.Pos()+1, "", "drop-not")
+							}
+						case *ast.ReturnStmt:
+							for _, r := range x.Results {
+								if id, ok := r.(*ast.Ident); ok && id.Name == "err" {
+									emit(r.Pos(), r.End(), "nil", "return-err->nil")
+								}
+							}
+						}
+						return true
+					})
+					continue
 				}
 				ast.Inspect(fd.Body, func(n ast.Node) bool {
 					switch x := n.(type) {
